@@ -23,7 +23,7 @@ def obligations(tier, seed):
     nested = []
     for o in range(fk.N_OPS):
         for r in (((o + seed) % 2,) if tier == 'quick' else (0, 1)):
-            for c in ([(0, 1, 3, 4, 5, 11)[(o + seed) % 6]] if tier == 'quick' else range(fk.N_CTX)):
+            for c in ([(0, 1, 3, 4, 5, 11)[(o + seed) % 6]] if tier == 'quick' else (0, 1, 3, 4, 5, 11)):
                 nested.append(fix(0, 4, o) + fix(4, 1, r) + fix(5, 4, c))
     return [
         dict(name='C07b.fold_int', fn='fold_int', timeout=t, shards=[['op == %d' % o, 'a_bool == %s' % ab] for o in range(fk.N_OPS) for ab in (True, False)],
@@ -33,7 +33,7 @@ def obligations(tier, seed):
              shards=[['b0 == %s' % bool(o & 1), 'b1 == %s' % bool(o & 2), 'b2 == %s' % bool(o & 4), 'b3 == %s' % bool(o & 8)] for o in range(fk.N_OPS)],
              bounds='%d^2 operand pairs x 16 type-variant pairs x 13 operators' % fk.N_VALS),
         dict(name='C07c.fold_nested', fn='fold_nested_b', timeout=t, shards=nested,
-             bounds='13 inner x 13 outer operators x 8^3 operand triples x left/right nesting x contexts (quick: one context and one nesting direction per outer operator, rotating with the seed; thorough: all %d)' % fk.N_CTX),
+             bounds='13 inner x 13 outer operators x 8^3 operand triples x left/right nesting x contexts (quick: one context and one nesting direction per outer operator, rotating with the seed; thorough: 6 of the %d contexts, both directions)' % fk.N_CTX),
         dict(name='C07.number_print', fn='number_print_b', timeout=t, shards=[['b0 == True'], ['b0 == False']],
              bounds='%d constants x sign x %d contexts' % (fk.N_NUMS, fk.N_CTX)),
     ]
